@@ -28,6 +28,7 @@ EXPLANATION = ('For each operator program three traces are proved equivalent for
 FUNCTIONS = ['every operator class (equinox field declarations, static vs. dynamic)', 'every mv reached', 'Landscape/StokesLandscape/HealpixLandscape/FrequencyLandscape.tree_flatten/tree_unflatten']
 BOUNDS = {'quick': 'catalogue leaves of 4 families, .T, closed-form .I, 25 composites per family; boolean-mask operators excluded from T2 (as in the statement); landscapes: nside 1,2,4,8 x 4 Stokes kinds x 2 dtypes, 2-d/3-d maps',
           'thorough': 'up to 2 500 composites per family'}
+BOUNDS['quick'] += '; 9 pairs of operators differing in one static field through one jitted function (concrete executions)'
 STUBS = ['lineax.linear_solve contract stub for programs with a lazy inverse']
 ASSUMPTIONS = ['real arithmetic: equality of the IRs\' denotations; floating-point agreement of compiled vs op-by-op execution is only sampled numerically (rtol 1e-6)',
                'jax.jit with the operator as a plain argument (non-array leaves traced) is not part of the statement']
@@ -57,6 +58,7 @@ def cases(tier, seed):
         for st in ('I', 'QU', 'IQU', 'IQUV'):
             out.append(('landscape', 'stokes', shape, st, 'float32'))
             out.append(('landscape', 'stokes-pixel', shape, st, 'float64'))
+    out += [('alias', n) for n in _alias_pairs()]
     return out
 
 
@@ -81,6 +83,8 @@ def run_case(key, twin=False):
         return _landscape(key)
     if key[0] == 'config':
         return _config()
+    if key[0] == 'alias':
+        return _alias(key[1])
     from ..catalogue import leaf_names
     _, fam, e = key
     bld = Builder(fam)
@@ -245,6 +249,70 @@ def _landscape(key):
     return ok(obligations=0, roundtrip_checks=1, nontrivial=True, sample=dict(landscape=type(ls).__name__, args=repr(key[2:])))
 
 
+def _QUIET(solution):
+    return None
+
+
+def _alias_pairs():
+    """Pairs of operators of one class with identical array leaves that differ in ONE static (non-array) field."""
+    import lineax as lx
+    from furax import Config, MoveAxisOperator, RavelOperator, ReshapeOperator
+    from furax._base.core import InverseOperator
+    from furax._base.dense import DenseBlockDiagonalOperator as Dense
+    from furax._base.diagonal import BroadcastDiagonalOperator, DiagonalOperator
+    from furax._base.indices import IndexOperator
+    from furax.operators.toeplitz import SymmetricBandToeplitzOperator as Toe
+    f = jnp.float32
+    S_ = lambda *s: jax.ShapeDtypeStruct(s, f)  # noqa: E731
+    spd = jnp.array([[4., 1, 0], [1, 3, 1], [0, 1, 2]], f)
+    A = Dense(spd, S_(3), 'ij,j->i')
+
+    def inv(**kw):
+        with Config(solver=lx.CG(rtol=1e-6, atol=1e-6, max_steps=1), solver_throw=False, solver_callback=_QUIET, **kw):
+            return InverseOperator(A)
+    sq = jnp.arange(9., dtype=f).reshape(3, 3)
+    return {
+        'moveaxis destination': lambda: (MoveAxisOperator(0, 1, in_structure=S_(2, 2, 2)), MoveAxisOperator(0, 2, in_structure=S_(2, 2, 2))),
+        'ravel axes': lambda: (RavelOperator(0, 1, in_structure=S_(2, 2, 2)), RavelOperator(1, 2, in_structure=S_(2, 2, 2))),
+        'reshape target': lambda: (ReshapeOperator((2, 4), in_structure=S_(2, 2, 2)), ReshapeOperator((4, 2), in_structure=S_(2, 2, 2))),
+        'einsum subscripts': lambda: (Dense(sq, S_(3), 'ij,j->i'), Dense(sq, S_(3), 'ji,j->i')),
+        'diagonal axis': lambda: (BroadcastDiagonalOperator(jnp.array([1., 2, 3], f), axis_destination=0, in_structure=S_(3, 3)),
+                                  BroadcastDiagonalOperator(jnp.array([1., 2, 3], f), axis_destination=1, in_structure=S_(3, 3))),
+        'index slice': lambda: (IndexOperator(slice(0, 2), in_structure=S_(4)), IndexOperator(slice(1, 3), in_structure=S_(4))),
+        'toeplitz method': lambda: (Toe(jnp.array([2., 1], f), S_(5), method='dense'), Toe(jnp.array([2., 1], f), S_(5), method='fft')),
+        # one CG iteration: the result depends on the preconditioner captured with the configuration
+        'inverse solver options': lambda: (inv(solver_options={'preconditioner': DiagonalOperator(jnp.ones(3, f), in_structure=S_(3))}),
+                                           inv(solver_options={'preconditioner': Dense(jnp.linalg.inv(spd), S_(3), 'ij,j->i')})),
+        'inverse solver': lambda: (inv(), InverseOperator(A)),
+    }
+
+
+def _alias(name):
+    """Both operators go through ONE filter_jit function (and one jax.jit function taking the operator as argument): a compilation made
+    for the first must not be reused for the second although only a static field differs.  Concrete execution, no solver."""
+    with real_solver():
+        a, b = _alias_pairs()[name]()
+        x = jax.tree.map(lambda s: jnp.arange(1., 1 + int(np.prod(s.shape)), dtype=s.dtype).reshape(s.shape) / 3, a.in_structure())
+        for jname, mkf in (('equinox.filter_jit', lambda: eqx.filter_jit(lambda op, x: op.mv(x))), ('jax.jit', lambda: jax.jit(lambda op, x: op.mv(x)))):
+            for first, second, tag in ((a, b, 'second'), (b, a, 'first')):
+                f = mkf()
+                try:
+                    f(first, x)
+                    got = f(second, x)
+                except Exception as ex:  # noqa: BLE001
+                    if jname == 'jax.jit':
+                        continue   # plain jax.jit needs every leaf to be an array: not claimed for operators with non-array dynamic fields
+                    return violation(f'{name}: {jname} with the operator as argument raises {type(ex).__name__}: {str(ex)[:120]}', signature=f'c18-alias-raises:{name}', kind='alias')
+                want = second.mv(x)
+                if jax.tree.structure(got) != jax.tree.structure(want) or any(g.shape != w.shape or g.dtype != w.dtype for g, w in zip(jax.tree.leaves(got), jax.tree.leaves(want))):
+                    return violation(f'{name}: after a call with the other operator, {jname} returns the structure of the other operator for the {tag} one', signature=f'c18-alias:{name}', kind='alias')
+                close, msg = trees_close(got, want, rtol=1e-5, atol=1e-6)
+                if not close:
+                    return violation(f'{name}: after a call with the other operator, {jname}(op, x) differs from eager op(x) for the {tag} operator: {msg} '
+                                     f'(a compilation is reused although a static field differs)', signature=f'c18-alias:{name}', kind='alias')
+    return ok(obligations=0, concrete_checks=4, nontrivial=True, sample=dict(case=f'alias: {name}', note='concrete executions through one jitted function'))
+
+
 def _config():
     from furax import Config
     from furax._base.config import ConfigState
@@ -268,7 +336,7 @@ def replay(key, model, info):
         key, twin = key[1], True
     key = _tuplify(key)
     kind = info.get('kind')
-    if key[0] in ('landscape', 'config'):
+    if key[0] in ('landscape', 'config', 'alias'):
         r = run_case(key)
         return r['status'] == 'violation', r.get('what', 'ok')
     _, fam, e = key
